@@ -518,6 +518,16 @@ func runServe(args []string) string {
 		srv.ServeHTTP(httptest.NewRecorder(), wreq)
 		prov.warming = false
 	}
+	if (len(args[2])+len(args[4]))%3 == 2 {
+		// … or it has served one under another OnSession: the callback (or its absence) that counts for a request is the
+		// one the exported field holds when the request arrives, not the one an earlier request was served with
+		real := srv.OnSession
+		srv.OnSession = func(http.ResponseWriter, *http.Request) ([]string, bool) { return []string{"stale-callback-topic"}, true }
+		prov.warming = true
+		srv.ServeHTTP(httptest.NewRecorder(), newRequest())
+		prov.warming = false
+		srv.OnSession = real
+	}
 	srv.ServeHTTP(w, req)
 	tail := rec.take()
 	if prov.called > 0 && prov.lead != "-" {
